@@ -4,6 +4,7 @@ import BRV.Model.Locator
 import BRV.Model.MainNet
 import BRV.Model.ProofVerify
 import BRV.Driver.Util
+import BRV.Model.StoreCheck
 
 open BRV BRV.Drv BRV.Repo
 
@@ -109,6 +110,14 @@ def crashPrefixes (s0 : Store) (evs : List StoreEv) (r : Repo) (g : Hdr) (depth 
     | some (.panic _) => s!"{k}:panic"
     | some (.err _) => s!"{k}:err"
     | none => s!"{k}:ok:{tipHeight r'}:{tipId r'}:{tipWork r'}:{if linkedFromGenesis r' g then 1 else 0}"
+
+/-- how many of the prefix images meet the hypothesis of the Load soundness theorem (`StoreOK`), among those
+    that have a branch index at all (without one Load initialises from genesis). A `#` line: not compared. -/
+def storeOKStats (s0 : Store) (evs : List StoreEv) : String :=
+  let imgs := (List.range (evs.length + 1)).map fun k => (evs.take k).foldl Store.apply s0
+  let withIdx := imgs.filter fun st => st.index.isSome
+  let ok := withIdx.filter storeOKb
+  s!"# storeok images={imgs.length} indexed={withIdx.length} ok={ok.length}"
 
 /-- a Remove of a missing key is not an event (the harness only sees effective removals). -/
 def effectiveEvents (s0 : Store) (evs : List StoreEv) : List StoreEv :=
@@ -240,15 +249,15 @@ def stepLine (s0 : DState) (line : String) : DState × String :=
   | "load" :: _ =>
     let (r, e) := load s.repo (Facts.pruneDepth : Int) s.genesis
     match e with
-    | none => ({ s with repo := r }, s!"r=ok {tipStr r}")
-    | some f => (s, s!"r={showFail "load" (some f)}")
+    | none => ({ s with repo := r }, s!"r=ok {tipStr r}\n{storeOKStats s.repo.store []}")
+    | some f => (s, s!"r={showFail "load" (some f)}\n{storeOKStats s.repo.store []}")
   | "loadd" :: rest =>
     match kvInt rest "d" with
     | some d =>
       let (r, e) := load s.repo d s.genesis
       match e with
-      | none => ({ s with repo := r }, s!"r=ok {tipStr r}")
-      | some f => (s, s!"r={showFail "load" (some f)}")
+      | none => ({ s with repo := r }, s!"r=ok {tipStr r}\n{storeOKStats s.repo.store []}")
+      | some f => (s, s!"r={showFail "load" (some f)}\n{storeOKStats s.repo.store []}")
     | none => (s, "bad-op")
   | "subscribe" :: _ => (s, "ok")
   | "crashsave" :: rest =>
@@ -256,14 +265,14 @@ def stepLine (s0 : DState) (line : String) : DState × String :=
     let (r, e) := save { s.repo with events := [] }
     let evs := effectiveEvents s0 r.events
     let ld : Int := (kvInt rest "ld").getD (Facts.pruneDepth : Int)
-    ({ s with repo := r }, s!"r={showFail "save" e} {tipStr r} ev=[{joinWith "," (evs.map evKind)}] p=[{joinWith "," (crashPrefixes s0 evs r s.genesis ld)}]")
+    ({ s with repo := r }, s!"r={showFail "save" e} {tipStr r} ev=[{joinWith "," (evs.map evKind)}] p=[{joinWith "," (crashPrefixes s0 evs r s.genesis ld)}]\n{storeOKStats s0 evs}")
   | "crashclean" :: rest =>
     let s0 := s.repo.store
     let d : Int := (kvInt rest "d").getD (Facts.pruneDepth : Int)
     let (r, e) := cleanWith { s.repo with events := [] } d
     let evs := effectiveEvents s0 r.events
     let ld : Int := (kvInt rest "ld").getD (Facts.pruneDepth : Int)
-    ({ s with repo := r }, s!"r={showFail "clean" e} {tipStr r} ev=[{joinWith "," (evs.map evKind)}] p=[{joinWith "," (crashPrefixes s0 evs r s.genesis ld)}]")
+    ({ s with repo := r }, s!"r={showFail "clean" e} {tipStr r} ev=[{joinWith "," (evs.map evKind)}] p=[{joinWith "," (crashPrefixes s0 evs r s.genesis ld)}]\n{storeOKStats s0 evs}")
   | "mark" :: rest =>
     match kvNat rest "id" with
     | some id => let (r, e) := markInvalid s.repo id; ({ s with repo := r }, s!"r={showFail "mark" e} {tipStr r}")
